@@ -227,7 +227,7 @@ def macro_lab_c19(pid, tier, seed, rundir, log):
         elif kind == "spl_hash":
             # the two arguments of the attribute, alone and together in either order
             args = ["hash_error_code_start = %d" % start]
-            r = (k + rng.randrange(3)) % 3
+            r = (k // 5 + seed) % 3      # the hashed enums of one run cover all three forms, whatever the seed
             if r == 1:
                 args.append("solana_program_error = \"solana_program_error\"")
             elif r == 2:
